@@ -56,6 +56,29 @@ def f(g):
     return 'middle operand of a comparison chain evaluated %d times' % len(calls)
 
 
+@witness('D15-callee-nonlocal-write-ignored', ['C01', 'C06'])
+def d15():
+  import malt
+  m = _load('''
+def f(c):
+  def g():
+    nonlocal x
+    x = 1
+  g()
+  if c:
+    x = 2
+  return x
+''', 'd15')
+  want = m.f(False)
+  try:
+    got = malt.to_graph(m.f)(False)
+  except Exception as e:
+    got = type(e).__name__
+  if got != want:
+    return ('a local function that assigns a nonlocal is called before an if that may rebind it: f(False) gives %r, '
+            'original %r (the variable is missing from the defined-on-entry set, so it is reset to Undefined)' % (got, want))
+
+
 def main():
   prop = sys.argv[1]
   failing, run = [], 0
